@@ -561,7 +561,7 @@ def record_history(rng, nops, maxpk):
                     grp.append(q)
             tags = rng.sample(tg_pool, rng.randint(0, min(4, len(tg_pool))))
             lines.append((grp, tags))
-        drop = rng.sample(tg_pool, rng.randint(1, 2)) if rng.random() < 0.3 else []
+        drop = rng.sample(tg_pool, min(len(tg_pool), rng.randint(1, 2))) if rng.random() < 0.3 else []
         text, glines = read_text(rng, lines)
         step({"op": "read", "text": text, "lines": glines, "drop": sorted(drop), "usefilter": bool(drop) or rng.random() < 0.3})
     ops = (["insert"] * 8 + ["reverse", "reverse_copy", "copy", "pickle", "choose", "choose_copy", "filter_p",
